@@ -93,3 +93,34 @@ if [ ! -f v1ee.cert.pem ]; then
   done
   rm -f t.csr t.ext min.cnf
 fi
+# wave 6: wildcard server identities (*.wild.sim) under both roots; an intermediate CA under the RSA root and
+# client certificates issued by the intermediates (SM2: caAint, RSA: rsaInt)
+if [ ! -f srvwild-sign.cert.pem ]; then
+  mk srvwild-sign "wild sign" digitalSignature serverAuth,clientAuth "*.wild.sim"
+  mk srvwild-enc  "wild enc"  keyEncipherment,dataEncipherment,keyAgreement serverAuth,clientAuth "*.wild.sim"
+  openssl genpkey -algorithm RSA -pkeyopt rsa_keygen_bits:2048 -out tlswild.key.pem 2>/dev/null
+  { echo "basicConstraints=critical,CA:FALSE"; echo "keyUsage=critical,digitalSignature,keyEncipherment"; echo "extendedKeyUsage=serverAuth"; echo "subjectKeyIdentifier=hash"; echo "authorityKeyIdentifier=keyid"; echo "subjectAltName=DNS:*.wild.sim"; } > t.ext
+  openssl req -new -key tlswild.key.pem -subj "/C=CN/O=verifsim/CN=wild" -out t.csr -sha256
+  openssl x509 -req -in t.csr -CA rsaCA.cert.pem -CAkey rsaCA.key.pem -out tlswild.cert.pem -extfile t.ext -not_before $VB -not_after $VA -sha256 -set_serial 9292 2>/dev/null
+  rm -f t.csr t.ext
+  openssl verify -CAfile rsaCA.cert.pem tlswild.cert.pem
+fi
+if [ ! -f rsaInt.cert.pem ]; then
+  openssl genpkey -algorithm RSA -pkeyopt rsa_keygen_bits:2048 -out rsaInt.key.pem 2>/dev/null
+  { echo "basicConstraints=critical,CA:TRUE,pathlen:0"; echo "keyUsage=critical,keyCertSign,cRLSign"; echo "subjectKeyIdentifier=hash"; echo "authorityKeyIdentifier=keyid"; } > t.ext
+  openssl req -new -key rsaInt.key.pem -subj "/C=CN/O=verifsim/CN=verifsim RSA intermediate" -out t.csr -sha256
+  openssl x509 -req -in t.csr -CA rsaCA.cert.pem -CAkey rsaCA.key.pem -out rsaInt.cert.pem -extfile t.ext -not_before $VB -not_after $VA -sha256 -set_serial 9393 2>/dev/null
+  openssl genpkey -algorithm RSA -pkeyopt rsa_keygen_bits:2048 -out tlscliint.key.pem 2>/dev/null
+  { echo "basicConstraints=critical,CA:FALSE"; echo "keyUsage=critical,digitalSignature"; echo "extendedKeyUsage=clientAuth"; echo "subjectKeyIdentifier=hash"; echo "authorityKeyIdentifier=keyid"; } > t.ext
+  openssl req -new -key tlscliint.key.pem -subj "/C=CN/O=verifsim/CN=client under intermediate" -out t.csr -sha256
+  openssl x509 -req -in t.csr -CA rsaInt.cert.pem -CAkey rsaInt.key.pem -out tlscliint.cert.pem -extfile t.ext -not_before $VB -not_after $VA -sha256 -set_serial 9494 2>/dev/null
+  rm -f t.csr t.ext
+  openssl verify -CAfile rsaCA.cert.pem -untrusted rsaInt.cert.pem tlscliint.cert.pem
+  # SM2 client under the existing SM2 intermediate
+  openssl genpkey -algorithm SM2 -out cliint.key.pem 2>/dev/null
+  { echo "basicConstraints=critical,CA:FALSE"; echo "keyUsage=critical,digitalSignature"; echo "extendedKeyUsage=clientAuth"; echo "subjectKeyIdentifier=hash"; echo "authorityKeyIdentifier=keyid"; } > t.ext
+  openssl req -new -key cliint.key.pem -subj "/C=CN/O=verifsim/CN=client under SM2 intermediate" -out t.csr -sm3 $D
+  openssl x509 -req $V -in t.csr -CA caAint.cert.pem -CAkey caAint.key.pem -out cliint.cert.pem -extfile t.ext -not_before $VB -not_after $VA -sm3 $D -set_serial 9595 2>/dev/null
+  rm -f t.csr t.ext
+  openssl x509 -in cliint.cert.pem -noout -issuer
+fi
